@@ -157,7 +157,8 @@ pub mod vmrun {
                 "let bi_alloc = alloc\nlet bi_free = free\nlet bi_load = load\nlet bi_store = store\n0"
             } else {
                 "@no_gc\nfn ng_alloc(n) { return alloc(n) }\n@no_gc\nfn ng_free(h) { free(h)\n return null }\n\
-                 @no_gc\nfn ng_load(h, o) { return load(h, o) }\n@no_gc\nfn ng_store(h, o, v) { store(h, o, v)\n return null }\n0"
+                 @no_gc\nfn ng_load(h, o) { return load(h, o) }\n@no_gc\nfn ng_store(h, o, v) { store(h, o, v)\n return null }\n\
+                 @no_gc\nfn ng_load_unused(h, o) { let t = load(h, o)\n return 0 }\n0"
             };
             let (c, _, d) = input(&mut vm, prelude, opt);
             if c != OK_VAL { panic!("prelude failed: {} {}", c, d); }
@@ -223,6 +224,21 @@ pub mod vmrun {
                 LOAD => format!("{}load({}, {})", pre, arg_src(op.a), arg_src(op.b)),
                 _ => format!("{}store({}, {}, {})", pre, arg_src(op.a), arg_src(op.b), op.vsrc),
             };
+            // a load whose result is not used must still perform its checks (an optimiser that treats
+            // `load` as pure would delete it together with its bounds / freed-handle errors): run the load
+            // once with its value thrown away, then again normally; both must agree on error / no error
+            if !self.builtin && op.k == LOAD && (self.other + op.v) % 2 == 0 {
+                let probe = if op.via_fn { format!("ng_load_unused({}, {})", arg_src(op.a), arg_src(op.b)) }
+                            else { format!("let unused_{} = load({}, {})\n0", self.other, arg_src(op.a), arg_src(op.b)) };
+                let (pc, _, _) = input(&mut self.vm, &probe, self.opt);
+                let (c2, _, _) = input(&mut self.vm, &src, self.opt);
+                if (pc == OK_VAL) != (c2 == OK_VAL) {
+                    println!("!ORACLE\tmheap-oracle:opcode:load:unused-result-skips-the-checks\t`{}` (opt {}) {} while `{}` {}\tprobe: {}",
+                             probe.replace('\n', " ; "), self.opt, if pc == OK_VAL { "succeeds" } else { "fails" }, src, if c2 == OK_VAL { "succeeds" } else { "fails" }, probe.replace('\n', " ; "));
+                    return Res { code: E_OTHER, val: pc as i128 };
+                }
+            }
+            self.other += 1;
             let (c, bits, d) = input(&mut self.vm, &src, self.opt);
             if c == E_COMPILE || c == E_OTHER { println!("!HARNESS\tinput `{}` (opt {}) -> class {}: {}", src, self.opt, c, d.replace('\n', " ").replace('\t', " ")); }
             if c != OK_VAL { return Res { code: c, val: 0 }; }
